@@ -3,6 +3,9 @@
 import json, subprocess
 
 CHECKS = {
+ "C02": ("exploration", "grammar-directed + mutation + noise generation (proptest over a choice tape) under catch_unwind and a step-counter hook; libFuzzer in the thorough tier",
+         "Random search over four generated input sources (zero-tolerance structured fragment, full-grammar structured, token mutations of valid rules, character noise) through run / get_trace_string / trace_changes and the error formatters; a panic, an abort of the worker, or exhaustion of a step budget counted at every loop head is a violation with a located, replayable signature. Listed known findings (exact signatures) are tolerated and printed; anything else alarms.",
+         "Trusted: the tick hook covers every unbounded loop (bounded copy loops are not instrumented); the budget is far above any terminating case seen (max ratio reported in the evidence). Absence of violations is not a proof of termination.", "DESIGN.md §5 C02"),
  # id: (level category, technique, level text, level note, design_ref)
  "C18": ("exploration", "exhaustive enumeration against a bit-layout model (all 65537 places x setters; all node bytes x features)",
          "Complete enumeration of the finite accessor space: every Place value, every setter with every in-range value and None, and every value of each byte node with every single-feature mask, compared equation by equation with a model that decodes the documented bit layout. Exhaustive for the stated space, so any accessor that breaks a get/set/frame/normalisation law for some value is found.",
